@@ -287,6 +287,40 @@ class Prop(SeqProp):
                     return f"op {i} {st}: {line!r}, definition gives {exp} for A={A} B={B}"
         return None
 
+    # membership tests and operators on the same (immutable) sets from several threads at once (harness/threads.py)
+    def extra_scenarios(self, rng, tier):
+        out = []
+        for _ in range(5 if tier == "quick" else 30):
+            spans = [(a, a + rng.randint(0, 6)) for a in (rng.randint(0, 20) for _ in range(rng.randint(2, 6)))]
+            out.append({"kind": "threads", "rel": rng.choice(RELS), "spans": spans,
+                        "probes": [(a, a + rng.randint(0, 5)) for a in (rng.randint(0, 22) for _ in range(8))]})
+        return out
+
+    def run_extra(self, desc):
+        from fractions import Fraction
+        from windpyutils.structures import span_set as ss
+        from .. import threads
+        relcls = {"exact": ss.SpanSetExactEqRelation, "partof": ss.SpanSetPartOfEqRelation,
+                  "includes": ss.SpanSetIncludesEqRelation, "overlaps": ss.SpanSetOverlapsEqRelation}
+        rel = desc["rel"]
+        spans = [tuple(x) for x in desc["spans"]]
+        S = ss.SpanSet([Fraction(a) for a, _ in spans], [Fraction(b) for _, b in spans], force_no_dup_check=True,
+                       eq_relation=relcls[rel]())
+        E = ss.SpanSet([Fraction(a) for a, _ in spans[:2]], [Fraction(b) for _, b in spans[:2]], force_no_dup_check=True)
+        jobs = []
+        for p in [tuple(x) for x in desc["probes"]] + spans[:3]:
+            exp = any(holds(rel, p, y) for y in spans)
+            jobs.append((f"{p} in S ({rel})", lambda p=p: (Fraction(p[0]), Fraction(p[1])) in S, ("ret", exp)))
+        inter = [x for x in spans if any(holds("exact", x, y) for y in spans[:2])]
+        uniq = []
+        for x in inter:
+            if x not in uniq:
+                uniq.append(x)
+        jobs.append(("S & E", lambda: [(int(a), int(b)) for a, b in (S & E)],
+                     ("ret", [x for x in dict.fromkeys(spans + spans[:2]) if any(holds(rel, x, y) for y in spans)
+                              and any(holds("exact", x, y) for y in spans[:2])])))
+        return threads.hammer(jobs, 4, 2)
+
     def key(self, case, impl_out):
         sets = [st for st in case.meta["impl"] if st[0] in ("mk", "raw")]
         if sum(1 for s in sets if s[3]) >= 2:
